@@ -12,17 +12,19 @@ def main():
     run = Run("C03")
     sizes = lambda b: [b["L"]] * b["NC"]
     cfgs = ["MC_BigWig_t1.cfg", "MC_BigWig_t2.cfg"] if run.thorough else ["MC_BigWig_q1.cfg", "MC_BigWig_q2.cfg"]
-    beh = emit(run, "MC_BigWig", cfgs)
-    # deeper layouts by random walks: 5..8 items over two chromosomes, one or two per block, fan-out 2 => 3- and 4-level indexes
-    beh += emit_sim(run, "MC_BigWig", "MC_BigWig_deep.cfg", 3000 if run.thorough else 300)
-    if not run.thorough:
-        beh = beh[::2]
-    cases = make_cases(beh, "bw", sizes, run, allq=1)
-    for k, c in enumerate(cases):
-        c["opts"]["bs"] = 2
-        c["cached"] = k % 2        # every other file: all queries in sequence through one caching reader
     desc = lambda o: {"result": o["obs"].get("result"), "err": o["obs"].get("err"), "queries": o["obs"].get("queries", [])[:80]}
-    obs = judge(run, "C03", "Obs_BigWig", cases, lambda o: len(o["items"]) >= 2, desc)
+
+    def build(beh, k0):
+        if not run.thorough:
+            beh = beh[::2]
+        cases = make_cases(beh, "bw", sizes, run, allq=1, k0=k0)
+        for k, c in enumerate(cases):
+            c["opts"]["bs"] = 2
+            c["cached"] = k % 2        # every other file: all queries in sequence through one caching reader
+        return cases
+    # exhaustive layouts, then deeper ones by random walks (5..8 items over two chromosomes, fan-out 2 => 3- and 4-level indexes)
+    obs = run_batches(run, "C03", "MC_BigWig", cfgs, "Obs_BigWig", lambda o: len(o["items"]) >= 2, desc, build,
+                      sims=[("MC_BigWig_deep.cfg", 3000 if run.thorough else 300)], size=150000)
     run.sample({"items": obs[len(obs) // 3]["items"], "queries": obs[len(obs) // 3]["obs"].get("queries", [])[:3]})
     # (2) histories
     hb = []
